@@ -48,6 +48,17 @@ func NewPauseController() *PauseController {
 	return &PauseController{}
 }
 
+func (p *PauseController) MarshalJSON() ([]byte, error) {
+	p.lock.RLock()
+	defer p.lock.RUnlock()
+
+	return json.Marshal(struct {
+		State       PauseState    `json:"state"`
+		StopMessage string        `json:"stop_message"`
+		FailAfter   time.Duration `json:"fail_after"`
+	}{p.State, p.StopMessage, p.FailAfter})
+}
+
 func (p *PauseController) UnmarshalJSON(data []byte) error {
 	type alias *PauseController // Avoid infinite recursion when we call Unmarshal
 	err := json.Unmarshal(data, alias(p))
